@@ -255,7 +255,7 @@ Proof.
 Qed.
 
 (* ================================================================== keys of one kind *)
-Lemma dt_is_key_vok na (k : value) : dt_is_key k = true -> dt_vok na k.
+Lemma dt_is_key_vok st na (k : value) : dt_is_key k = true -> dt_vok st na k.
 Proof. destruct k; simpl; intro H; try discriminate; constructor. Qed.
 
 Lemma dt_code_of_str (kv : value * value) : dt_is_str (fst kv) = true -> dcode kv = x73 :: dkstr kv.
@@ -338,12 +338,35 @@ Proof. intro H. unfold dt_map_put_all. apply dt_canon_nodup, dt_map_fill_nodup. 
 Lemma dt_sorted_entries_perm p (m : dentries) : Permutation (dt_sorted_entries p m) m.
 Proof. unfold dt_sorted_entries, iter_map. eapply Permutation_trans; [apply sp_isort_perm|apply apply_perm_Permutation]. Qed.
 
-(* sortedMapKeys does not depend on the map order when the key strings are pairwise different *)
-Lemma dt_sorted_entries_indep p1 p2 (m : dentries) : NoDup (map dkstr m) -> dt_sorted_entries p1 m = dt_sorted_entries p2 m.
+(* the sort key of sortedMapKeys (string form, type name) tells proper keys apart *)
+Definition dskey (kv : value * value) : bytes * bytes := dt_sort_key kv.
+
+Lemma dt_sort_key_code (a b : value * value) : dt_is_key (fst a) = true -> dt_is_key (fst b) = true ->
+  dt_sort_key a = dt_sort_key b -> dcode a = dcode b.
 Proof.
-  intro H. unfold dt_sorted_entries, iter_map. apply sort_by_key_canonical.
+  destruct a as [ka va], b as [kb vb]. unfold dt_sort_key, dcode. simpl.
+  destruct ka, kb; simpl; intros Ha Hb H; try discriminate; inversion H; reflexivity.
+Qed.
+
+Lemma dt_sortkey_nodup (m : dentries) :
+  Forall (fun kv => dt_is_key (fst kv) = true) m -> NoDup (map dcode m) -> NoDup (map dt_sort_key m).
+Proof.
+  induction m as [|kv r IH]; simpl; intros Hk Hnd; [constructor|].
+  inversion Hk as [|x xs Hkv Hkr]; subst. inversion Hnd as [|y ys Hnin Hnd']; subst.
+  constructor; [|apply IH; assumption].
+  intro Hin. apply Hnin. apply in_map_iff in Hin. destruct Hin as [kv' [E Hin']].
+  apply in_map_iff. exists kv'. split; [|exact Hin'].
+  rewrite Forall_forall in Hkr. apply dt_sort_key_code; [apply Hkr; exact Hin'|exact Hkv|exact E].
+Qed.
+
+(* sortedMapKeys does not depend on the map order: the keys of a map are pairwise different and the
+   comparator (string form, then type name) tells any two of them apart *)
+Lemma dt_sorted_entries_indep p1 p2 (m : dentries) :
+  Forall (fun kv => dt_is_key (fst kv) = true) m -> NoDup (map dcode m) -> dt_sorted_entries p1 m = dt_sorted_entries p2 m.
+Proof.
+  intros Hk H. unfold dt_sorted_entries, iter_map. apply sort_by_key2_canonical.
   - eapply Permutation_trans; [apply apply_perm_Permutation|apply Permutation_sym, apply_perm_Permutation].
-  - apply (dt_iter_nodup dkstr). exact H.
+  - apply (dt_iter_nodup dt_sort_key). apply dt_sortkey_nodup; assumption.
 Qed.
 
 (* the same for range + sort.Strings *)
@@ -357,15 +380,21 @@ Proof.
 Qed.
 
 (* ================================================================== inversion helpers for dt_vok *)
-Lemma dt_vok_map_inv na t m : dt_vok na (VMap t m) ->
-  NoDup (map dkstr m) /\ Forall (fun kv => dt_is_key (fst kv) = true) m /\ Forall (fun kv => dt_vok na (snd kv)) m.
+Lemma dt_vok_map_inv st na t m : dt_vok st na (VMap t m) ->
+  NoDup (map dcode m) /\ Forall (fun kv => dt_is_key (fst kv) = true) m /\ Forall (fun kv => dt_vok st na (snd kv)) m.
 Proof. intro H. inversion H; subst. auto. Qed.
 
-Lemma dt_vok_list_inv na t xs : dt_vok na (VList t xs) -> Forall (dt_vok na) xs.
+Lemma dt_vok_map_strict st na t m : dt_vok st na (VMap t m) -> st = true -> NoDup (map dkstr m).
+Proof. intros H Hs. inversion H; subst. auto. Qed.
+
+Lemma dt_vok_list_inv st na t xs : dt_vok st na (VList t xs) -> Forall (dt_vok st na) xs.
 Proof. intro H. inversion H; subst. assumption. Qed.
 
-Lemma dt_vok_map_code na t m : dt_vok na (VMap t m) -> NoDup (map dcode m).
-Proof. intro H. apply dt_vok_map_inv in H. destruct H as [H1 [H2 _]]. apply dt_kstr_nodup_code; assumption. Qed.
+Lemma dt_vok_map_code st na t m : dt_vok st na (VMap t m) -> NoDup (map dcode m).
+Proof. intro H. apply dt_vok_map_inv in H. tauto. Qed.
+
+Lemma dt_vok_map_sorted st na t m p1 p2 : dt_vok st na (VMap t m) -> dt_sorted_entries p1 m = dt_sorted_entries p2 m.
+Proof. intro H. apply dt_vok_map_inv in H. destruct H as [H1 [H2 _]]. apply dt_sorted_entries_indep; assumption. Qed.
 
 Lemma dt_map_get_in (m : dentries) k v : dt_map_get m k = Some v -> exists k', In (k', v) m.
 Proof.
@@ -377,11 +406,12 @@ Qed.
 
 (* ================================================================== filters and functions *)
 Section Filters.
-  Variable na : bool.
+  Variables st na mu : bool.
   Variables al1 al2 : daddr.
   Hypothesis Hal : na = false -> al1 = al2.
+  Hypothesis Hmu : mu = true -> st = true.
 
-  Lemma dt_tostring_indep (v : value) : dt_vok na v -> dt_tostring al1 v = dt_tostring al2 v.
+  Lemma dt_fmt_elem_indep (v : value) : dt_vok st na v -> dt_fmt_elem al1 v = dt_fmt_elem al2 v.
   Proof.
     intro H. destruct v as [| | | | | | |o| | |]; simpl; try reflexivity.
     - destruct o as [x|]; [|reflexivity].
@@ -389,107 +419,133 @@ Section Filters.
     - assert (Hna : na = false) by (inversion H; assumption). rewrite (Hal Hna). reflexivity.
   Qed.
 
-  Lemma dt_tostring_list_indep (vs : list value) : Forall (dt_vok na) vs -> dt_tostring_list al1 vs = dt_tostring_list al2 vs.
+  Lemma dt_fmt_elems_indep (vs : list value) : Forall (dt_vok st na) vs -> dt_fmt_elems al1 vs = dt_fmt_elems al2 vs.
+  Proof.
+    induction vs as [|v r IH]; simpl; intro H; [reflexivity|].
+    inversion H; subst. rewrite dt_fmt_elem_indep by assumption. rewrite IH by assumption. reflexivity.
+  Qed.
+
+  Fixpoint dt_tostring_indep (v : value) : dt_vok st na v -> dt_tostring al1 v = dt_tostring al2 v.
+  Proof.
+    destruct v as [| | | |t xs| |ty fs|o| | |]; intro H; simpl; try reflexivity.
+    - rewrite dt_fmt_elems_indep; [reflexivity|inversion H; assumption].
+    - rewrite dt_fmt_elems_indep; [reflexivity|].
+      assert (Hf : Forall (fun f => dt_vok st na (snd f)) fs) by (inversion H; assumption).
+      apply Forall_forall. intros x Hx. apply in_map_iff in Hx. destruct Hx as [f [E Hin]]. subst x.
+      rewrite Forall_forall in Hf. apply Hf. exact Hin.
+    - destruct o as [x|]; [|reflexivity]. apply dt_tostring_indep. inversion H; assumption.
+  Qed.
+
+  Lemma dt_tostring_list_indep (vs : list value) : Forall (dt_vok st na) vs -> dt_tostring_list al1 vs = dt_tostring_list al2 vs.
   Proof.
     induction vs as [|v r IH]; simpl; intro H; [reflexivity|].
     inversion H; subst. rewrite dt_tostring_indep by assumption. rewrite IH by assumption. reflexivity.
   Qed.
 
-  Lemma dt_first_indep pi1 pi2 v : dt_vok na v -> dt_first pi1 v = dt_first pi2 v.
+  Lemma dt_first_indep pi1 pi2 v : dt_vok st na v -> dt_first pi1 v = dt_first pi2 v.
   Proof.
     intro H. destruct v; simpl; try reflexivity.
-    apply dt_vok_map_inv in H. destruct H as [Hnd _].
-    rewrite (dt_sorted_entries_indep (pi1 [0]) (pi2 [0])) by exact Hnd. reflexivity.
+    rewrite (dt_vok_map_sorted _ _ _ _ (pi1 [0]) (pi2 [0]) H). reflexivity.
   Qed.
 
-  Lemma dt_first_ok pi v r : dt_vok na v -> dt_first pi v = Ok r -> dt_vok na r.
+  Lemma dt_first_ok pi v r : dt_vok st na v -> dt_first pi v = Ok r -> dt_vok st na r.
   Proof.
     intros H E. destruct v; simpl in E; try discriminate.
     - inversion E. constructor.
     - destruct xs as [|x xs]; inversion E; subst; [constructor|].
       apply dt_vok_list_inv in H. inversion H; assumption.
     - apply dt_vok_map_inv in H. destruct H as [_ [_ Hv]].
-      assert (Hs : Forall (fun kv => dt_vok na (snd kv)) (dt_sorted_entries (pi [0]) kvs)).
+      assert (Hs : Forall (fun kv => dt_vok st na (snd kv)) (dt_sorted_entries (pi [0]) kvs)).
       { eapply Forall_perm; [apply Permutation_sym, dt_sorted_entries_perm|exact Hv]. }
       destruct (dt_sorted_entries (pi [0]) kvs) as [|[k x] rest]; inversion E; subst; [constructor|].
       inversion Hs; assumption.
   Qed.
 
-  Lemma dt_last_ok v r : dt_vok na v -> dt_last v = Ok r -> dt_vok na r.
+  Lemma dt_last_ok v r : dt_vok st na v -> dt_last v = Ok r -> dt_vok st na r.
   Proof.
     intros H E. destruct v; simpl in E; try discriminate; inversion E; subst.
     - constructor.
     - apply Forall_last; [apply dt_vok_list_inv in H; exact H|constructor].
   Qed.
 
-  Lemma dt_keys_indep pi1 pi2 v : dt_vok na v -> dt_keys pi1 v = dt_keys pi2 v.
+  Lemma dt_keys_indep pi1 pi2 v : dt_vok st na v -> dt_keys pi1 v = dt_keys pi2 v.
   Proof.
     intro H. destruct v; simpl; try reflexivity.
-    apply dt_vok_map_inv in H. destruct H as [Hnd _].
-    destruct tag; rewrite ?(dt_sorted_entries_indep (pi1 [0]) (pi2 [0])) by exact Hnd; try reflexivity.
-    destruct (dt_all_keys dt_is_str kvs); [|reflexivity].
+    rewrite (dt_vok_map_sorted _ _ _ _ (pi1 [0]) (pi2 [0]) H).
+    destruct tag; try reflexivity.
+    destruct (dt_all_keys dt_is_str kvs) eqn:A; [|reflexivity].
     change (fun kv : value * value => dt_keystr (fst kv)) with dkstr.
-    rewrite (dt_sorted_keystrs_indep (pi1 [0]) (pi2 [0])) by exact Hnd. reflexivity.
+    rewrite (dt_sorted_keystrs_indep (pi1 [0]) (pi2 [0])); [reflexivity|].
+    apply dt_str_keys_nodup; [apply dt_all_keys_Forall; exact A|eapply dt_vok_map_code; exact H].
   Qed.
 
-  Lemma dt_keys_list_ok (m : dentries) : Forall (fun kv => dt_is_key (fst kv) = true) m -> Forall (dt_vok na) (map fst m).
+  Lemma dt_keys_list_ok (m : dentries) : Forall (fun kv => dt_is_key (fst kv) = true) m -> Forall (dt_vok st na) (map fst m).
   Proof.
     intro H. apply Forall_forall. intros k Hk. apply in_map_iff in Hk. destruct Hk as [kv [E Hin]]. subst.
     rewrite Forall_forall in H. apply dt_is_key_vok. apply H. exact Hin.
   Qed.
 
-  Lemma dt_keys_ok pi v r : dt_vok na v -> dt_keys pi v = Ok r -> dt_vok na r.
+  Lemma dt_keys_ok pi v r : dt_vok st na v -> dt_keys pi v = Ok r -> dt_vok st na r.
   Proof.
     intros H E. destruct v; simpl in E; try discriminate.
     - inversion E. constructor.
     - apply dt_vok_map_inv in H. destruct H as [_ [Hk _]].
-      assert (Hs : dt_vok na (VList LAny (map fst (dt_sorted_entries (pi [0]) kvs)))).
+      assert (Hs : dt_vok st na (VList LAny (map fst (dt_sorted_entries (pi [0]) kvs)))).
       { constructor. apply dt_keys_list_ok. eapply Forall_perm; [apply Permutation_sym, dt_sorted_entries_perm|exact Hk]. }
       destruct tag; try (inversion E; subst; exact Hs).
       destruct (dt_all_keys dt_is_str kvs); inversion E; subst; [|exact Hs].
       constructor. apply Forall_forall. intros x Hx. apply in_map_iff in Hx. destruct Hx as [s [Es _]]. subst. constructor.
   Qed.
 
-  Lemma dt_length_ok v r : dt_length v = Ok r -> dt_vok na r.
+  Lemma dt_length_ok v r : dt_length v = Ok r -> dt_vok st na r.
   Proof.
     destruct v; simpl; intro E; try discriminate; try (inversion E; constructor).
     destruct (dt_ascii s); inversion E. constructor.
   Qed.
 
-  Lemma dt_join_indep v args : dt_vok na v -> dt_join_filter al1 v args = dt_join_filter al2 v args.
+  Lemma dt_join_indep v args : dt_vok st na v -> dt_join_filter al1 v args = dt_join_filter al2 v args.
   Proof.
     intro H. unfold dt_join_filter.
     destruct v; try (rewrite dt_tostring_indep by exact H; reflexivity); try reflexivity.
     rewrite dt_tostring_list_indep; [reflexivity|apply dt_vok_list_inv in H; exact H].
   Qed.
 
-  Lemma dt_join_ok al v args r : dt_join_filter al v args = Ok r -> dt_vok na r.
+  Lemma dt_join_ok al v args r : dt_join_filter al v args = Ok r -> dt_vok st na r.
   Proof.
     unfold dt_join_filter. intro E.
     destruct v; try (destruct (dt_tostring al _) eqn:T; simpl in E; inversion E; constructor); try (inversion E; constructor).
     destruct (dt_tostring_list al xs); simpl in E; inversion E. constructor.
   Qed.
 
-  Lemma dt_sort_indep v : dt_vok na v -> dt_sort al1 v = dt_sort al2 v.
+  Lemma dt_sort_indep v : dt_vok st na v -> dt_sort al1 v = dt_sort al2 v.
   Proof.
-    intro H. destruct v; simpl; try reflexivity.
-    apply dt_vok_list_inv in H. destruct tag; try reflexivity; rewrite dt_tostring_list_indep by exact H; reflexivity.
+    intro H. destruct v; try reflexivity.
+    apply dt_vok_list_inv in H. unfold dt_sort.
+    destruct tag; try reflexivity; try (destruct xs; [reflexivity|]);
+      match goal with |- context [forallb dt_is_num ?l] => destruct (forallb dt_is_num l) end; try reflexivity;
+      rewrite dt_tostring_list_indep by exact H; reflexivity.
   Qed.
 
-  Lemma dt_sort_ok al v r : dt_vok na v -> dt_sort al v = Ok r -> dt_vok na r.
+  Lemma dt_sort_ok al v r : dt_vok st na v -> dt_sort al v = Ok r -> dt_vok st na r.
   Proof.
-    intros H E. destruct v; simpl in E; try discriminate.
+    intros H E. destruct v; try discriminate.
     - inversion E. constructor.
-    - apply dt_vok_list_inv in H.
-      assert (G : forall ss, dt_vok na (VList LAny (map snd (sp_isort bytes_leb fst (combine ss xs))))).
-      { intro ss. constructor. apply Forall_forall. intros x Hx. apply in_map_iff in Hx. destruct Hx as [[s y] [Ey Hin]]. simpl in Ey. subst y.
+    - pose proof (dt_vok_list_inv _ _ _ _ H) as Hx.
+      assert (G : forall ss, dt_vok st na (VList LAny (map snd (sp_isort bytes_leb fst (combine ss xs))))).
+      { intro ss. constructor. apply Forall_forall. intros x Hin. apply in_map_iff in Hin. destruct Hin as [[s y] [Ey Hin]]. simpl in Ey. subst y.
         apply (Permutation_in _ (sp_isort_perm _ _ _ _ _)) in Hin. apply in_combine_r in Hin.
-        rewrite Forall_forall in H. apply H. exact Hin. }
-      destruct tag; try discriminate; destruct (dt_tostring_list al xs) as [ss| | |]; simpl in E; try discriminate;
+        rewrite Forall_forall in Hx. apply Hx. exact Hin. }
+      assert (N : dt_vok st na (VList LAny (sp_isort Z.leb dt_num xs))).
+      { constructor. eapply Forall_perm; [apply Permutation_sym, sp_isort_perm|exact Hx]. }
+      unfold dt_sort in E.
+      destruct tag; try discriminate; try (destruct xs as [|x0 xr]; [inversion E; subst; exact H|]);
+        match type of E with context [forallb dt_is_num ?l] => destruct (forallb dt_is_num l) end;
+        try (inversion E; subst; exact N);
+        match type of E with context [dt_tostring_list al ?l] => destruct (dt_tostring_list al l) as [ss| | |] end; simpl in E; try discriminate;
         destruct (dt_nodupb ss); inversion E; apply G.
   Qed.
 
-  Lemma dt_reverse_ok v r : dt_vok na v -> dt_reverse v = Ok r -> dt_vok na r.
+  Lemma dt_reverse_ok v r : dt_vok st na v -> dt_reverse v = Ok r -> dt_vok st na r.
   Proof.
     intros H E. destruct v; simpl in E; try discriminate; inversion E; subst.
     - constructor.
@@ -497,14 +553,14 @@ Section Filters.
   Qed.
 
   (* ---- merge ---- *)
-  Lemma dt_merge_lists_ok args : Forall (dt_vok na) args -> Forall (dt_vok na) (dt_merge_lists args).
+  Lemma dt_merge_lists_ok args : Forall (dt_vok st na) args -> Forall (dt_vok st na) (dt_merge_lists args).
   Proof.
     induction args as [|a r IH]; simpl; intro H; [constructor|].
     inversion H; subst. destruct a; try (apply IH; assumption).
     apply Forall_app. split; [apply dt_vok_list_inv with (t := tag); assumption|apply IH; assumption].
   Qed.
 
-  Lemma dt_fmerge_lists_ok args : Forall (dt_vok na) args -> Forall (dt_vok na) (dt_fmerge_lists args).
+  Lemma dt_fmerge_lists_ok args : Forall (dt_vok st na) args -> Forall (dt_vok st na) (dt_fmerge_lists args).
   Proof.
     induction args as [|a r IH]; simpl; intro H; [constructor|].
     inversion H as [|x xs Ha Hr]; subst.
@@ -512,94 +568,37 @@ Section Filters.
     apply Forall_app. split; [apply dt_vok_list_inv with (t := tag); assumption|apply IH; assumption].
   Qed.
 
-  Lemma dt_merge_maps_indep pi1 pi2 tag args : Forall (dt_vok na) args -> forall i acc, NoDup (map dcode acc) ->
-    dt_merge_maps pi1 i tag args acc = dt_merge_maps pi2 i tag args acc.
-  Proof.
-    induction args as [|a r IH]; simpl; intros H i acc Hacc; [reflexivity|].
-    inversion H as [|x xs Ha Hr]; subst.
-    destruct a; try (apply IH; assumption).
-    rewrite (dt_put_all_indep (pi1 [i]) (pi2 [i])); [|eapply dt_vok_map_code; exact Ha|exact Hacc].
-    destruct tag, tag0; try reflexivity; apply IH; try assumption; apply dt_put_all_nodup; exact Hacc.
-  Qed.
+  (* invariant of the accumulated map: string keys, no repeated key, good values *)
+  Definition dt_acc_ok (acc : dentries) : Prop :=
+    NoDup (map dcode acc) /\ Forall (fun kv => dt_is_str (fst kv) = true) acc /\ Forall (fun kv => dt_vok st na (snd kv)) acc.
 
-  (* invariant of the accumulated map: proper keys of one kind, no repeated key, good values *)
-  Definition dt_acc_ok (kf : value -> bool) (acc : dentries) : Prop :=
-    NoDup (map dcode acc) /\ Forall (fun kv => kf (fst kv) = true) acc /\ Forall (fun kv => dt_vok na (snd kv)) acc.
+  Lemma dt_acc_ok_nil : dt_acc_ok [].
+  Proof. split; [constructor|split; constructor]. Qed.
 
-  Lemma dt_put_all_acc_ok kf p m acc t : dt_vok na (VMap t m) -> dt_all_keys kf m = true -> dt_acc_ok kf acc ->
-    dt_acc_ok kf (dt_map_put_all p m acc).
+  Lemma dt_acc_ok_vok t acc : dt_acc_ok acc -> dt_vok st na (VMap t acc).
   Proof.
-    intros Hm Hk [A1 [A2 A3]]. apply dt_vok_map_inv in Hm. destruct Hm as [_ [_ Hv]].
-    apply dt_all_keys_Forall in Hk.
-    split; [apply dt_put_all_nodup; exact A1|].
-    split; apply dt_put_all_Forall; assumption.
-  Qed.
-
-  Lemma dt_merge_maps_ok kf pi tag args : Forall (dt_vok na) args ->
-    (forall t m, In (VMap t m) args -> dt_all_keys kf m = true) ->
-    forall i acc r, dt_acc_ok kf acc -> dt_merge_maps pi i tag args acc = Ok r -> dt_acc_ok kf r.
-  Proof.
-    induction args as [|a rest IH]; simpl; intros H Hk i acc r Hacc E.
-    - inversion E; subst. exact Hacc.
-    - inversion H as [|x xs Ha Hr]; subst.
-      assert (Hk' : forall t m, In (VMap t m) rest -> dt_all_keys kf m = true) by (intros t m Hin; eapply Hk; right; exact Hin).
-      destruct a; try (eapply IH; eassumption).
-      destruct (match tag with MAny => _ | _ => _ end); [|discriminate].
-      eapply IH; [exact Hr|exact Hk'| |exact E].
-      eapply dt_put_all_acc_ok; [exact Ha|eapply Hk; left; reflexivity|exact Hacc].
-  Qed.
-
-  Lemma dt_args_homogeneous_spec str args : dt_args_homogeneous str args = true ->
-    forall t m, In (VMap t m) args -> dt_all_keys (if str then dt_is_str else dt_is_int) m = true.
-  Proof.
-    induction args as [|a r IH]; simpl; intros H t m Hin; [destruct Hin|].
-    destruct Hin as [Hin|Hin].
-    - subst a. apply andb_true_iff in H. tauto.
-    - destruct a; try (eapply IH; eassumption). apply andb_true_iff in H. destruct H as [_ H]. eapply IH; eassumption.
-  Qed.
-
-  Lemma dt_acc_ok_vok kf t acc : (kf = dt_is_str \/ kf = dt_is_int) -> dt_acc_ok kf acc -> dt_vok na (VMap t acc).
-  Proof.
-    intros Hkf [A1 [A2 A3]]. constructor.
-    - change (fun kv : value * value => dt_keystr (fst kv)) with dkstr.
-      destruct Hkf; subst kf; [apply dt_str_keys_nodup|apply dt_int_keys_nodup]; assumption.
-    - eapply Forall_impl; [|exact A2]. intros [k v]; simpl. destruct Hkf; subst kf; destruct k; simpl; congruence.
+    intros [A1 [A2 A3]]. constructor.
+    - exact A1.
+    - intros _. change (fun kv : value * value => dt_keystr (fst kv)) with dkstr. apply dt_str_keys_nodup; assumption.
+    - eapply Forall_impl; [|exact A2]. intros [k v]; simpl. destruct k; simpl; congruence.
     - exact A3.
   Qed.
 
-  Lemma dt_acc_ok_nil kf : dt_acc_ok kf [].
-  Proof. split; [constructor|split; constructor]. Qed.
-
-  Lemma dt_merge_filter_indep pi1 pi2 v args : dt_vok na v -> Forall (dt_vok na) args ->
-    dt_merge_filter pi1 v args = dt_merge_filter pi2 v args.
-  Proof.
-    intros Hv Ha. destruct v; simpl; try reflexivity.
-    match goal with |- (if ?c then _ else _) = _ => destruct c; [|reflexivity] end.
-    rewrite (dt_put_all_indep (pi1 [0]) (pi2 [0])); [|eapply dt_vok_map_code; exact Hv|constructor].
-    rewrite (dt_merge_maps_indep pi1 pi2); [reflexivity|exact Ha|apply dt_put_all_nodup; constructor].
-  Qed.
-
-  Lemma dt_merge_filter_ok pi v args r : dt_vok na v -> Forall (dt_vok na) args -> dt_merge_filter pi v args = Ok r -> dt_vok na r.
-  Proof.
-    intros Hv Ha E. destruct v; simpl in E; try (inversion E; subst; exact Hv).
-    - inversion E; subst. constructor. apply Forall_app. split; [apply dt_vok_list_inv in Hv; exact Hv|apply dt_merge_lists_ok; exact Ha].
-    - set (str := match kvs with [] => match tag with MIntStr => false | _ => true end | (k, _) :: _ => dt_is_str k end) in E.
-      destruct (dt_all_keys (if str then dt_is_str else dt_is_int) kvs && dt_args_homogeneous str args) eqn:C; [|discriminate].
-      apply andb_true_iff in C. destruct C as [C1 C2].
-      destruct (dt_merge_maps pi 1 tag args (dt_map_put_all (pi [0]) kvs [])) as [res| | |] eqn:M; simpl in E; try discriminate.
-      inversion E; subst.
-      apply (dt_acc_ok_vok (if str then dt_is_str else dt_is_int)); [destruct str; auto|].
-      eapply dt_merge_maps_ok; [exact Ha|apply dt_args_homogeneous_spec; exact C2| |exact M].
-      eapply dt_put_all_acc_ok; [exact Hv|exact C1|apply dt_acc_ok_nil].
-  Qed.
-
-  (* ---- the merge function: keys through toString ---- *)
   Lemma dt_strkeys_code (m : dentries) : map dcode (dt_strkeys m) = map (fun kv => x73 :: dkstr kv) m.
   Proof. unfold dt_strkeys. rewrite map_map. reflexivity. Qed.
 
   Lemma dt_strkeys_nodup (m : dentries) : NoDup (map dkstr m) -> NoDup (map dcode (dt_strkeys m)).
   Proof. intro H. rewrite dt_strkeys_code. apply NoDup_map_cons_inv. exact H. Qed.
 
+  Lemma dt_strkeys_acc (m : dentries) : Forall (fun kv => dt_vok st na (snd kv)) m ->
+    Forall (fun kv => dt_is_str (fst kv) = true) (dt_strkeys m) /\ Forall (fun kv => dt_vok st na (snd kv)) (dt_strkeys m).
+  Proof.
+    intro Hv. split; apply Forall_forall; intros x Hx; unfold dt_strkeys in Hx; apply in_map_iff in Hx; destruct Hx as [y [E Hy]]; subst; simpl.
+    - reflexivity.
+    - rewrite Forall_forall in Hv. apply Hv. exact Hy.
+  Qed.
+
+  (* filling in the order of MapKeys(): independent of that order when the key strings are pairwise different *)
   Lemma dt_put_all_str_indep p1 p2 (m acc : dentries) : NoDup (map dkstr m) -> NoDup (map dcode acc) ->
     dt_map_put_all_str p1 m acc = dt_map_put_all_str p2 m acc.
   Proof.
@@ -612,61 +611,108 @@ Section Filters.
     - apply dt_map_fill_nodup. exact Hacc.
   Qed.
 
-  Lemma dt_put_all_str_acc_ok p m acc t : dt_vok na (VMap t m) -> dt_acc_ok dt_is_str acc -> dt_acc_ok dt_is_str (dt_map_put_all_str p m acc).
+  (* filling in the order of sortedMapKeys: always independent of the map order *)
+  Lemma dt_put_sorted_str_indep p1 p2 t (m acc : dentries) : dt_vok st na (VMap t m) ->
+    dt_map_put_sorted_str p1 m acc = dt_map_put_sorted_str p2 m acc.
+  Proof. intro H. unfold dt_map_put_sorted_str. rewrite (dt_vok_map_sorted _ _ _ _ p1 p2 H). reflexivity. Qed.
+
+  Lemma dt_put_all_str_acc_ok p m acc t : dt_vok st na (VMap t m) -> dt_acc_ok acc -> dt_acc_ok (dt_map_put_all_str p m acc).
   Proof.
     intros Hm [A1 [A2 A3]]. apply dt_vok_map_inv in Hm. destruct Hm as [_ [_ Hv]].
     unfold dt_map_put_all_str.
-    assert (Hs1 : Forall (fun kv => dt_is_str (fst kv) = true) (dt_strkeys (iter_map p m))).
-    { apply Forall_forall. intros x Hx. unfold dt_strkeys in Hx. apply in_map_iff in Hx. destruct Hx as [y [E _]]. subst. reflexivity. }
-    assert (Hs2 : Forall (fun kv => dt_vok na (snd kv)) (dt_strkeys (iter_map p m))).
-    { apply Forall_forall. intros x Hx. unfold dt_strkeys in Hx. apply in_map_iff in Hx. destruct Hx as [y [E Hy]]. subst. simpl.
-      assert (Hi : Forall (fun kv => dt_vok na (snd kv)) (iter_map p m)) by (apply dt_iter_Forall; exact Hv).
-      rewrite Forall_forall in Hi. apply Hi. exact Hy. }
+    destruct (dt_strkeys_acc (iter_map p m)) as [Hs1 Hs2]; [apply dt_iter_Forall; exact Hv|].
     split; [apply dt_canon_nodup, dt_map_fill_nodup; exact A1|].
     split; apply dt_canon_Forall, dt_map_fill_Forall; assumption.
   Qed.
 
-  Lemma dt_fmerge_maps_indep pi1 pi2 args : Forall (dt_vok na) args -> forall i acc, NoDup (map dcode acc) ->
-    dt_fmerge_maps pi1 i args acc = dt_fmerge_maps pi2 i args acc.
+  Lemma dt_put_sorted_str_acc_ok p m acc t : dt_vok st na (VMap t m) -> dt_acc_ok acc -> dt_acc_ok (dt_map_put_sorted_str p m acc).
   Proof.
-    induction args as [|a r IH]; simpl; intros H i acc Hacc; [reflexivity|].
-    inversion H as [|x xs Ha Hr]; subst.
-    destruct a; try (apply IH; assumption).
-    rewrite (dt_put_all_str_indep (pi1 [i]) (pi2 [i])); [|apply dt_vok_map_inv in Ha; tauto|exact Hacc].
-    apply IH; [exact Hr|]. unfold dt_map_put_all_str. apply dt_canon_nodup, dt_map_fill_nodup. exact Hacc.
+    intros Hm [A1 [A2 A3]]. apply dt_vok_map_inv in Hm. destruct Hm as [_ [_ Hv]].
+    unfold dt_map_put_sorted_str.
+    destruct (dt_strkeys_acc (dt_sorted_entries p m)) as [Hs1 Hs2].
+    { eapply Forall_perm; [apply Permutation_sym, dt_sorted_entries_perm|exact Hv]. }
+    split; [apply dt_canon_nodup, dt_map_fill_nodup; exact A1|].
+    split; apply dt_canon_Forall, dt_map_fill_Forall; assumption.
   Qed.
 
-  Lemma dt_fmerge_maps_ok pi args : Forall (dt_vok na) args -> forall i acc, dt_acc_ok dt_is_str acc ->
-    dt_acc_ok dt_is_str (dt_fmerge_maps pi i args acc).
+  Lemma dt_acc_nodup acc : dt_acc_ok acc -> NoDup (map dcode acc).
+  Proof. intros [A _]. exact A. Qed.
+
+  Lemma dt_merge_maps_indep pi1 pi2 args : Forall (dt_vok st na) args -> forall i acc, dt_acc_ok acc ->
+    dt_merge_maps mu pi1 i args acc = dt_merge_maps mu pi2 i args acc /\ dt_acc_ok (dt_merge_maps mu pi1 i args acc).
   Proof.
+    induction args as [|a r IH]; simpl; intros H i acc Hacc; [split; [reflexivity|exact Hacc]|].
+    inversion H as [|x xs Ha Hr]; subst.
+    destruct a; try (apply IH; assumption).
+    destruct mu eqn:M.
+    - rewrite (dt_put_all_str_indep (pi1 [i]) (pi2 [i]));
+        [|eapply dt_vok_map_strict; [exact Ha|apply Hmu; reflexivity]|apply dt_acc_nodup; exact Hacc].
+      apply IH; [exact Hr|]. eapply dt_put_all_str_acc_ok; eassumption.
+    - rewrite (dt_put_sorted_str_indep (pi1 [i]) (pi2 [i]) tag kvs acc Ha).
+      apply IH; [exact Hr|]. eapply dt_put_sorted_str_acc_ok; eassumption.
+  Qed.
+
+  Lemma dt_merge_maps_ok pi args : Forall (dt_vok st na) args -> forall i acc, dt_acc_ok acc -> dt_acc_ok (dt_merge_maps mu pi i args acc).
+  Proof.
+    clear Hmu.
     induction args as [|a r IH]; simpl; intros H i acc Hacc; [exact Hacc|].
     inversion H as [|x xs Ha Hr]; subst.
     destruct a; try (apply IH; assumption).
-    apply IH; [exact Hr|]. eapply dt_put_all_str_acc_ok; eassumption.
+    apply IH; [exact Hr|]. destruct mu; [eapply dt_put_all_str_acc_ok|eapply dt_put_sorted_str_acc_ok]; eassumption.
   Qed.
 
-  Lemma dt_merge_function_indep pi1 pi2 args : Forall (dt_vok na) args -> dt_merge_function pi1 args = dt_merge_function pi2 args.
+  Lemma dt_merge_filter_indep pi1 pi2 v args : dt_vok st na v -> Forall (dt_vok st na) args ->
+    dt_merge_filter mu pi1 v args = dt_merge_filter mu pi2 v args.
+  Proof.
+    intros Hv Ha. destruct v; simpl; try reflexivity.
+    destruct (dt_merge_maps_indep pi1 pi2 (VMap tag kvs :: args) (Forall_cons _ Hv Ha) 0 [] dt_acc_ok_nil) as [E _].
+    simpl in E. rewrite E. reflexivity.
+  Qed.
+
+  Lemma dt_merge_filter_ok pi v args r : dt_vok st na v -> Forall (dt_vok st na) args -> dt_merge_filter mu pi v args = Ok r -> dt_vok st na r.
+  Proof.
+    intros Hv Ha E. destruct v; simpl in E; try (inversion E; subst; exact Hv).
+    - inversion E; subst. constructor. apply Forall_app. split; [apply dt_vok_list_inv in Hv; exact Hv|apply dt_merge_lists_ok; exact Ha].
+    - inversion E; subst. apply dt_acc_ok_vok.
+      apply (dt_merge_maps_ok pi (VMap tag kvs :: args) (Forall_cons _ Hv Ha) 0 [] dt_acc_ok_nil).
+  Qed.
+
+  (* ---- the merge function ---- *)
+  Lemma dt_fmerge_maps_indep pi1 pi2 args : Forall (dt_vok st na) args -> forall i acc, dt_acc_ok acc ->
+    dt_fmerge_maps pi1 i args acc = dt_fmerge_maps pi2 i args acc /\ dt_acc_ok (dt_fmerge_maps pi1 i args acc).
+  Proof.
+    induction args as [|a r IH]; simpl; intros H i acc Hacc; [split; [reflexivity|exact Hacc]|].
+    inversion H as [|x xs Ha Hr]; subst.
+    destruct a; try (apply IH; assumption).
+    destruct (dt_is_generic tag kvs) eqn:G.
+    - assert (Hs : NoDup (map dkstr kvs)).
+      { destruct tag; simpl in G; try discriminate. apply dt_str_keys_nodup; [apply dt_all_keys_Forall; exact G|eapply dt_vok_map_code; exact Ha]. }
+      rewrite (dt_put_all_str_indep (pi1 [i]) (pi2 [i])); [|exact Hs|apply dt_acc_nodup; exact Hacc].
+      apply IH; [exact Hr|]. eapply dt_put_all_str_acc_ok; eassumption.
+    - rewrite (dt_put_sorted_str_indep (pi1 [i]) (pi2 [i]) tag kvs acc Ha).
+      apply IH; [exact Hr|]. eapply dt_put_sorted_str_acc_ok; eassumption.
+  Qed.
+
+  Lemma dt_merge_function_indep pi1 pi2 args : Forall (dt_vok st na) args -> dt_merge_function pi1 args = dt_merge_function pi2 args.
   Proof.
     intro H. unfold dt_merge_function. destruct args as [|a [|b r]]; try reflexivity.
-    inversion H as [|x xs Ha Hr]; subst. destruct a; try reflexivity.
-    rewrite (dt_put_all_str_indep (pi1 [0]) (pi2 [0])); [|apply dt_vok_map_inv in Ha; tauto|constructor].
-    rewrite (dt_fmerge_maps_indep pi1 pi2); [reflexivity|exact Hr|].
-    unfold dt_map_put_all_str. apply dt_canon_nodup, dt_map_fill_nodup. constructor.
+    destruct a; try reflexivity.
+    destruct (dt_fmerge_maps_indep pi1 pi2 _ H 0 [] dt_acc_ok_nil) as [E _]. rewrite E. reflexivity.
   Qed.
 
-  Lemma dt_merge_function_ok pi args r : Forall (dt_vok na) args -> dt_merge_function pi args = Ok r -> dt_vok na r.
+  Lemma dt_merge_function_ok pi args r : Forall (dt_vok st na) args -> dt_merge_function pi args = Ok r -> dt_vok st na r.
   Proof.
-    intros H E. unfold dt_merge_function in E. destruct args as [|a [|b rest]]; simpl in E; try discriminate;
+    intros H E. unfold dt_merge_function in E. destruct args as [|a [|b rest]]; try discriminate;
       [destruct a; discriminate|].
-    inversion H as [|x xs Ha Hr]; subst. destruct a; simpl in E; try discriminate; inversion E; subst.
-    - apply vok_list. apply Forall_app. split; [apply dt_vok_list_inv in Ha; exact Ha|apply (dt_fmerge_lists_ok (b :: rest)); exact Hr].
-    - apply (dt_acc_ok_vok dt_is_str); [auto|].
-      apply (dt_fmerge_maps_ok pi (b :: rest)); [exact Hr|]. eapply dt_put_all_str_acc_ok; [exact Ha|apply dt_acc_ok_nil].
+    destruct a; try discriminate; inversion E; subst.
+    - inversion H as [|x0 xs0 Ha Hr]; subst.
+      apply vok_list. apply Forall_app. split; [apply dt_vok_list_inv in Ha; exact Ha|apply (dt_fmerge_lists_ok (b :: rest)); exact Hr].
+    - apply dt_acc_ok_vok. apply (dt_fmerge_maps_indep pi pi _ H 0 [] dt_acc_ok_nil).
   Qed.
 
   (* ---- dispatch ---- *)
-  Lemma dt_filter_indep pi1 pi2 f v args : dt_vok na v -> Forall (dt_vok na) args ->
-    dt_filter pi1 al1 f v args = dt_filter pi2 al2 f v args.
+  Lemma dt_filter_indep pi1 pi2 f v args : dt_vok st na v -> Forall (dt_vok st na) args ->
+    dt_filter mu pi1 al1 f v args = dt_filter mu pi2 al2 f v args.
   Proof.
     intros Hv Ha. unfold dt_filter.
     repeat match goal with |- (if ?c then _ else _) = _ => destruct c end; try reflexivity.
@@ -677,7 +723,7 @@ Section Filters.
     - apply dt_merge_filter_indep; assumption.
   Qed.
 
-  Lemma dt_filter_ok pi al f v args r : dt_vok na v -> Forall (dt_vok na) args -> dt_filter pi al f v args = Ok r -> dt_vok na r.
+  Lemma dt_filter_ok pi al f v args r : dt_vok st na v -> Forall (dt_vok st na) args -> dt_filter mu pi al f v args = Ok r -> dt_vok st na r.
   Proof.
     intros Hv Ha. unfold dt_filter.
     repeat match goal with |- (if ?c then _ else _) = _ -> _ => destruct c end; intro E.
@@ -692,14 +738,14 @@ Section Filters.
     - discriminate.
   Qed.
 
-  Lemma dt_function_indep pi1 pi2 f args : Forall (dt_vok na) args -> dt_function pi1 f args = dt_function pi2 f args.
+  Lemma dt_function_indep pi1 pi2 f args : Forall (dt_vok st na) args -> dt_function pi1 f args = dt_function pi2 f args.
   Proof.
     intro Ha. unfold dt_function.
     repeat match goal with |- (if ?c then _ else _) = _ => destruct c end; try reflexivity.
     apply dt_merge_function_indep; assumption.
   Qed.
 
-  Lemma dt_function_ok pi f args r : Forall (dt_vok na) args -> dt_function pi f args = Ok r -> dt_vok na r.
+  Lemma dt_function_ok pi f args r : Forall (dt_vok st na) args -> dt_function pi f args = Ok r -> dt_vok st na r.
   Proof.
     intro Ha. unfold dt_function.
     repeat match goal with |- (if ?c then _ else _) = _ -> _ => destruct c end; intro E.
@@ -709,7 +755,7 @@ Section Filters.
     - discriminate.
   Qed.
 
-  Lemma dt_item_ok c i r : dt_vok na c -> dt_item c i = Ok r -> dt_vok na r.
+  Lemma dt_item_ok c i r : dt_vok st na c -> dt_item c i = Ok r -> dt_vok st na r.
   Proof.
     intros Hc E. destruct c; simpl in E; try discriminate.
     - inversion E. constructor.
@@ -719,12 +765,12 @@ Section Filters.
       apply orb_false_iff in B. destruct B as [B1 B2]. apply Z.ltb_ge in B1. apply Z.leb_gt in B2.
       apply Hc. apply nth_In. lia.
     - apply dt_vok_map_inv in Hc. destruct Hc as [_ [_ Hv]]. rewrite Forall_forall in Hv.
-      assert (G : forall k, dt_vok na (match dt_map_get kvs k with Some v => v | None => VNull end)).
+      assert (G : forall k, dt_vok st na (match dt_map_get kvs k with Some v => v | None => VNull end)).
       { intro k. destruct (dt_map_get kvs k) eqn:G; [|constructor]. apply dt_map_get_in in G. destruct G as [k' Hin]. apply (Hv _ Hin). }
       destruct i; try discriminate; match type of E with (if ?c then _ else _) = _ => destruct c end; inversion E; apply G.
   Qed.
 
-  Lemma dt_attr_ok c a r : dt_vok na c -> dt_attr c a = Ok r -> dt_vok na r.
+  Lemma dt_attr_ok c a r : dt_vok st na c -> dt_attr c a = Ok r -> dt_vok st na r.
   Proof.
     intros Hc E. destruct c; simpl in E; try discriminate.
     - inversion E. constructor.
@@ -738,20 +784,20 @@ End Filters.
 Lemma dt_bind_ok {A B} (o : outcome A) (f : A -> outcome B) b : dt_bind o f = Ok b -> exists a, o = Ok a /\ f a = Ok b.
 Proof. destruct o; simpl; intro H; try discriminate. exists a. auto. Qed.
 
-Lemma dt_env_get_ok na env x : dt_env_ok na env -> dt_vok na (dt_env_get env x).
+Lemma dt_env_get_ok st na env x : dt_env_ok st na env -> dt_vok st na (dt_env_get env x).
 Proof.
   unfold dt_env_get, dt_env_ok. induction env as [|[y w] r IH]; simpl; intro H; [constructor|].
   inversion H; subst. destruct (bytes_eqb y x); [assumption|apply IH; assumption].
 Qed.
 
-Lemma dt_env_set_ok na env x v : dt_env_ok na env -> dt_vok na v -> dt_env_ok na (dt_env_set env x v).
+Lemma dt_env_set_ok st na env x v : dt_env_ok st na env -> dt_vok st na v -> dt_env_ok st na (dt_env_set env x v).
 Proof.
   unfold dt_env_ok. induction env as [|[y w] r IH]; simpl; intros H Hv.
   - constructor; [exact Hv|constructor].
   - inversion H; subst. destruct (bytes_eqb y x); constructor; try assumption. apply IH; assumption.
 Qed.
 
-Lemma dt_lit_ok na l : dt_vok na (dt_lit l).
+Lemma dt_lit_ok st na l : dt_vok st na (dt_lit l).
 Proof. destruct l; constructor. Qed.
 
 Lemma dt_eval_list_ok (ev : doracle -> expr -> outcome value) (Q : value -> Prop) :
@@ -773,10 +819,10 @@ Proof.
   rewrite (IH pi1 pi2 (S i)) by assumption. reflexivity.
 Qed.
 
-Lemma dt_eval_pairs_ok na (ev : doracle -> expr -> outcome value) al :
-  (forall p e v, ev p e = Ok v -> dt_vok na v) ->
+Lemma dt_eval_pairs_ok st na (ev : doracle -> expr -> outcome value) al :
+  (forall p e v, ev p e = Ok v -> dt_vok st na v) ->
   forall kvs pi i pairs, dt_eval_pairs ev al pi i kvs = Ok pairs ->
-  Forall (fun kv => dt_is_str (fst kv) = true) pairs /\ Forall (fun kv => dt_vok na (snd kv)) pairs.
+  Forall (fun kv => dt_is_str (fst kv) = true) pairs /\ Forall (fun kv => dt_vok st na (snd kv)) pairs.
 Proof.
   intro Hev. induction kvs as [|[k v] r IH]; simpl; intros pi i pairs E.
   - inversion E. split; constructor.
@@ -801,13 +847,13 @@ Proof.
     destruct l; simpl in Hk, E2; try discriminate; inversion Hk; inversion E2; subst; reflexivity.
 Qed.
 
-Lemma dt_hash_build_ok na g p (pairs : dentries) :
-  Forall (fun kv => dt_is_str (fst kv) = true) pairs -> Forall (fun kv => dt_vok na (snd kv)) pairs ->
-  dt_vok na (dt_hash_build g p pairs).
+Lemma dt_hash_build_ok st na g p (pairs : dentries) :
+  Forall (fun kv => dt_is_str (fst kv) = true) pairs -> Forall (fun kv => dt_vok st na (snd kv)) pairs ->
+  dt_vok st na (dt_hash_build g p pairs).
 Proof.
-  intros H1 H2. unfold dt_hash_build. apply (dt_acc_ok_vok na dt_is_str); [auto|].
-  assert (G : forall X, Forall (fun kv => dt_is_str (fst kv) = true) X -> Forall (fun kv => dt_vok na (snd kv)) X ->
-              dt_acc_ok na dt_is_str (dt_canon (dt_map_fill X []))).
+  intros H1 H2. unfold dt_hash_build. apply dt_acc_ok_vok.
+  assert (G : forall X, Forall (fun kv => dt_is_str (fst kv) = true) X -> Forall (fun kv => dt_vok st na (snd kv)) X ->
+              dt_acc_ok st na (dt_canon (dt_map_fill X []))).
   { intros X X1 X2. split; [apply dt_canon_nodup, dt_map_fill_nodup; constructor|].
     split; apply dt_canon_Forall, dt_map_fill_Forall; try assumption; constructor. }
   destruct g; apply G; try assumption; apply dt_iter_Forall; assumption.
@@ -829,15 +875,15 @@ Proof.
 Qed.
 
 Section Eval.
-  Variable gm na : bool.
+  Variables gm mu st na : bool.
 
-  Lemma dt_eval_lit fu pi al env l v : dt_eval gm fu pi al env (ELit l) = Ok v -> v = dt_lit l.
+  Lemma dt_eval_lit fu pi al env l v : dt_eval gm mu fu pi al env (ELit l) = Ok v -> v = dt_lit l.
   Proof. destruct fu; simpl; intro H; [discriminate|inversion H; reflexivity]. Qed.
 
-  Lemma dt_eval_ok : forall fu pi al env e v, dt_env_ok na env -> dt_eval gm fu pi al env e = Ok v -> dt_vok na v.
+  Lemma dt_eval_ok : forall fu pi al env e v, dt_env_ok st na env -> dt_eval gm mu fu pi al env e = Ok v -> dt_vok st na v.
   Proof.
     induction fu as [|fu IH]; intros pi al env e v Henv E; [discriminate|].
-    assert (Hev : forall p x w, dt_eval gm fu p al env x = Ok w -> dt_vok na w) by (intros p x w Hw; eapply IH; eassumption).
+    assert (Hev : forall p x w, dt_eval gm mu fu p al env x = Ok w -> dt_vok st na w) by (intros p x w Hw; eapply IH; eassumption).
     destruct e; simpl in E; try discriminate.
     - inversion E. apply dt_lit_ok.
     - inversion E. apply dt_env_get_ok. exact Henv.
@@ -847,7 +893,7 @@ Section Eval.
     - apply dt_bind_ok in E. destruct E as [vs [E1 E2]]. inversion E2; subst. constructor.
       eapply dt_eval_list_ok; [|exact E1]. intros p x w Hw. eapply Hev. exact Hw.
     - apply dt_bind_ok in E. destruct E as [pairs [E1 E2]]. inversion E2; subst.
-      destruct (dt_eval_pairs_ok na _ al Hev _ _ _ _ E1) as [P1 P2]. apply dt_hash_build_ok; assumption.
+      destruct (dt_eval_pairs_ok st na _ al Hev _ _ _ _ E1) as [P1 P2]. apply dt_hash_build_ok; assumption.
     - apply dt_bind_ok in E. destruct E as [avs [E1 E]]. apply dt_bind_ok in E. destruct E as [xv [E2 E3]].
       eapply dt_filter_ok; [eapply Hev; exact E2| |exact E3].
       eapply dt_eval_list_ok; [|exact E1]. intros p x w Hw. eapply Hev. exact Hw.
@@ -858,9 +904,10 @@ Section Eval.
 
   Variables al1 al2 : daddr.
   Hypothesis Hal : na = false -> al1 = al2.
+  Hypothesis Hmu : mu = true -> st = true.
 
   Lemma dt_eval_pairs_indep (ev1 ev2 : doracle -> expr -> outcome value) :
-    (forall p1 p2 e, dt_eok gm e -> ev1 p1 e = ev2 p2 e) -> (forall p e v, ev1 p e = Ok v -> dt_vok na v) ->
+    (forall p1 p2 e, dt_eok gm e -> ev1 p1 e = ev2 p2 e) -> (forall p e v, ev1 p e = Ok v -> dt_vok st na v) ->
     forall kvs pi1 pi2 i, Forall (fun kv => dt_eok gm (fst kv) /\ dt_eok gm (snd kv)) kvs ->
     dt_eval_pairs ev1 al1 pi1 i kvs = dt_eval_pairs ev2 al2 pi2 i kvs.
   Proof.
@@ -868,32 +915,32 @@ Section Eval.
     inversion H as [|x xs [Hk Hv] Hr]; subst. simpl in Hk, Hv.
     rewrite <- (Hev (dsub i pi1) (dsub i pi2) k Hk).
     destruct (ev1 (dsub i pi1) k) as [kv| | |] eqn:E1; simpl; try reflexivity.
-    rewrite (dt_tostring_indep na al1 al2 Hal kv) by (eapply Hok; exact E1).
+    rewrite (dt_tostring_indep st na al1 al2 Hal kv) by (eapply Hok; exact E1).
     destruct (dt_tostring al2 kv); simpl; try reflexivity.
     rewrite <- (Hev (dsub (S i) pi1) (dsub (S i) pi2) v Hv).
     destruct (ev1 (dsub (S i) pi1) v); simpl; try reflexivity.
     rewrite (IH pi1 pi2 (S (S i)) Hr). reflexivity.
   Qed.
 
-  Lemma dt_eval_indep : forall fu pi1 pi2 env e, dt_env_ok na env -> dt_eok gm e ->
-    dt_eval gm fu pi1 al1 env e = dt_eval gm fu pi2 al2 env e.
+  Lemma dt_eval_indep : forall fu pi1 pi2 env e, dt_env_ok st na env -> dt_eok gm e ->
+    dt_eval gm mu fu pi1 al1 env e = dt_eval gm mu fu pi2 al2 env e.
   Proof.
     induction fu as [|fu IH]; intros pi1 pi2 env e Henv He; [reflexivity|].
-    assert (Hev : forall p1 p2 x, dt_eok gm x -> dt_eval gm fu p1 al1 env x = dt_eval gm fu p2 al2 env x)
+    assert (Hev : forall p1 p2 x, dt_eok gm x -> dt_eval gm mu fu p1 al1 env x = dt_eval gm mu fu p2 al2 env x)
       by (intros; apply IH; assumption).
-    assert (Hok : forall p x w, dt_eval gm fu p al1 env x = Ok w -> dt_vok na w)
+    assert (Hok : forall p x w, dt_eval gm mu fu p al1 env x = Ok w -> dt_vok st na w)
       by (intros p x w Hw; eapply dt_eval_ok; eassumption).
     inversion He; subst; simpl; try reflexivity.
     - (* EAttr *) rewrite (Hev (dsub 2 pi1) (dsub 2 pi2)) by assumption. reflexivity.
     - (* EItem *) rewrite (Hev (dsub 2 pi1) (dsub 2 pi2)) by assumption.
-      destruct (dt_eval gm fu (dsub 2 pi2) al2 env e0); simpl; try reflexivity.
+      destruct (dt_eval gm mu fu (dsub 2 pi2) al2 env e0); simpl; try reflexivity.
       rewrite (Hev (dsub 3 pi1) (dsub 3 pi2)) by assumption. reflexivity.
     - (* EArr *)
-      rewrite (dt_eval_list_indep _ (fun p x => dt_eval gm fu p al2 env x) (dt_eok gm) Hev es pi1 pi2 2) by assumption.
+      rewrite (dt_eval_list_indep _ (fun p x => dt_eval gm mu fu p al2 env x) (dt_eok gm) Hev es pi1 pi2 2) by assumption.
       reflexivity.
     - (* EHash *)
-      rewrite (dt_eval_pairs_indep _ (fun p x => dt_eval gm fu p al2 env x) Hev Hok kvs pi1 pi2 2) by assumption.
-      destruct (dt_eval_pairs (fun p x => dt_eval gm fu p al2 env x) al2 pi2 2 kvs) as [pairs| | |] eqn:EP; simpl; try reflexivity.
+      rewrite (dt_eval_pairs_indep _ (fun p x => dt_eval gm mu fu p al2 env x) Hev Hok kvs pi1 pi2 2) by assumption.
+      destruct (dt_eval_pairs (fun p x => dt_eval gm mu fu p al2 env x) al2 pi2 2 kvs) as [pairs| | |] eqn:EP; simpl; try reflexivity.
       f_equal. destruct (Bool.bool_dec gm true) as [G|G];
         [|apply Bool.not_true_is_false in G; rewrite G; reflexivity].
       destruct (H G) as [strs [Hm Hnd]]. rewrite G.
@@ -901,31 +948,31 @@ Section Eval.
       eapply dt_eval_pairs_keys; [|exact Hm|exact EP].
       intros p l v Hv. eapply dt_eval_lit. exact Hv.
     - (* EFilter *)
-      rewrite (dt_eval_list_indep _ (fun p x => dt_eval gm fu p al2 env x) (dt_eok gm) Hev args pi1 pi2 3) by assumption.
-      destruct (dt_eval_list (fun p x => dt_eval gm fu p al2 env x) pi2 3 args) as [avs| | |] eqn:EA; simpl; try reflexivity.
+      rewrite (dt_eval_list_indep _ (fun p x => dt_eval gm mu fu p al2 env x) (dt_eok gm) Hev args pi1 pi2 3) by assumption.
+      destruct (dt_eval_list (fun p x => dt_eval gm mu fu p al2 env x) pi2 3 args) as [avs| | |] eqn:EA; simpl; try reflexivity.
       rewrite (Hev (dsub 2 pi1) (dsub 2 pi2)) by assumption.
-      destruct (dt_eval gm fu (dsub 2 pi2) al2 env e0) as [xv| | |] eqn:EX; simpl; try reflexivity.
-      apply (dt_filter_indep na al1 al2 Hal).
+      destruct (dt_eval gm mu fu (dsub 2 pi2) al2 env e0) as [xv| | |] eqn:EX; simpl; try reflexivity.
+      apply (dt_filter_indep st na mu al1 al2 Hal Hmu).
       + eapply dt_eval_ok; eassumption.
       + eapply dt_eval_list_ok; [|exact EA]. intros p x w Hw. cbv beta in Hw. eapply dt_eval_ok; [exact Henv|exact Hw].
     - (* ECall *)
-      rewrite (dt_eval_list_indep _ (fun p x => dt_eval gm fu p al2 env x) (dt_eok gm) Hev args pi1 pi2 2) by assumption.
-      destruct (dt_eval_list (fun p x => dt_eval gm fu p al2 env x) pi2 2 args) as [avs| | |] eqn:EA; simpl; try reflexivity.
-      apply (dt_function_indep na).
+      rewrite (dt_eval_list_indep _ (fun p x => dt_eval gm mu fu p al2 env x) (dt_eok gm) Hev args pi1 pi2 2) by assumption.
+      destruct (dt_eval_list (fun p x => dt_eval gm mu fu p al2 env x) pi2 2 args) as [avs| | |] eqn:EA; simpl; try reflexivity.
+      apply (dt_function_indep st na).
       eapply dt_eval_list_ok; [|exact EA]. intros p x w Hw. cbv beta in Hw. eapply dt_eval_ok; [exact Henv|exact Hw].
   Qed.
 End Eval.
 
 (* ================================================================== nodes *)
-Lemma dt_index_from_ok na xs : Forall (dt_vok na) xs -> forall i,
-  Forall (fun kv => dt_vok na (fst kv) /\ dt_vok na (snd kv)) (dt_index_from i xs).
+Lemma dt_index_from_ok st na xs : Forall (dt_vok st na) xs -> forall i,
+  Forall (fun kv => dt_vok st na (fst kv) /\ dt_vok st na (snd kv)) (dt_index_from i xs).
 Proof.
   induction xs as [|x r IH]; simpl; intros H i; [constructor|].
   inversion H; subst. constructor; [split; [constructor|assumption]|apply IH; assumption].
 Qed.
 
-Lemma dt_for_items_ok na pi sv items : dt_vok na sv -> dt_for_items pi sv = Ok (Some items) ->
-  Forall (fun kv => dt_vok na (fst kv) /\ dt_vok na (snd kv)) items.
+Lemma dt_for_items_ok st na pi sv items : dt_vok st na sv -> dt_for_items pi sv = Ok (Some items) ->
+  Forall (fun kv => dt_vok st na (fst kv) /\ dt_vok st na (snd kv)) items.
 Proof.
   intros H E. destruct sv; simpl in E; try discriminate; inversion E; subst.
   - apply dt_index_from_ok. apply dt_vok_list_inv in H. exact H.
@@ -934,21 +981,20 @@ Proof.
     apply Forall_forall. intros kv Hin. rewrite Forall_forall in Hk, Hv. split; [apply dt_is_key_vok; apply Hk; exact Hin|apply Hv; exact Hin].
 Qed.
 
-Lemma dt_for_items_indep na pi1 pi2 sv : dt_vok na sv -> dt_for_items pi1 sv = dt_for_items pi2 sv.
+Lemma dt_for_items_indep st na pi1 pi2 sv : dt_vok st na sv -> dt_for_items pi1 sv = dt_for_items pi2 sv.
 Proof.
   intro H. destruct sv; simpl; try reflexivity.
-  apply dt_vok_map_inv in H. destruct H as [Hnd _].
-  rewrite (dt_sorted_entries_indep (pi1 [0]) (pi2 [0])) by exact Hnd. reflexivity.
+  rewrite (dt_vok_map_sorted _ _ _ _ (pi1 [0]) (pi2 [0]) H). reflexivity.
 Qed.
 
 Section Nodes.
-  Variable gm na : bool.
+  Variables gm mu st na : bool.
 
   Definition dt_rn_ok (rn : doracle -> denv -> node -> outcome dres) : Prop :=
-    forall p env n r, dt_env_ok na env -> rn p env n = Ok r -> dt_env_ok na (snd r).
+    forall p env n r, dt_env_ok st na env -> rn p env n = Ok r -> dt_env_ok st na (snd r).
 
   Lemma dt_render_nodes_ok rn : dt_rn_ok rn ->
-    forall ns pi i env r, dt_env_ok na env -> dt_render_nodes rn pi i env ns = Ok r -> dt_env_ok na (snd r).
+    forall ns pi i env r, dt_env_ok st na env -> dt_render_nodes rn pi i env ns = Ok r -> dt_env_ok st na (snd r).
   Proof.
     intro Hrn. induction ns as [|n rest IH]; simpl; intros pi i env r Henv E.
     - inversion E; subst. exact Henv.
@@ -957,9 +1003,9 @@ Section Nodes.
   Qed.
 
   Lemma dt_loop_ok (body : doracle -> denv -> outcome dres) :
-    (forall p env r, dt_env_ok na env -> body p env = Ok r -> dt_env_ok na (snd r)) ->
-    forall items pi j k v env r, Forall (fun kv => dt_vok na (fst kv) /\ dt_vok na (snd kv)) items ->
-    dt_env_ok na env -> dt_loop body pi j k v env items = Ok r -> dt_env_ok na (snd r).
+    (forall p env r, dt_env_ok st na env -> body p env = Ok r -> dt_env_ok st na (snd r)) ->
+    forall items pi j k v env r, Forall (fun kv => dt_vok st na (fst kv) /\ dt_vok st na (snd kv)) items ->
+    dt_env_ok st na env -> dt_loop body pi j k v env items = Ok r -> dt_env_ok st na (snd r).
   Proof.
     intro Hb. induction items as [|[key val] rest IH]; simpl; intros pi j k v env r Hit Henv E.
     - inversion E; subst. exact Henv.
@@ -971,8 +1017,8 @@ Section Nodes.
   Qed.
 
   Lemma dt_if_ok (ev : doracle -> expr -> outcome value) (rns : doracle -> denv -> list node -> outcome dres) :
-    (forall p env ns r, dt_env_ok na env -> rns p env ns = Ok r -> dt_env_ok na (snd r)) ->
-    forall branches pi i env els r, dt_env_ok na env -> dt_if ev rns pi i env branches els = Ok r -> dt_env_ok na (snd r).
+    (forall p env ns r, dt_env_ok st na env -> rns p env ns = Ok r -> dt_env_ok st na (snd r)) ->
+    forall branches pi i env els r, dt_env_ok st na env -> dt_if ev rns pi i env branches els = Ok r -> dt_env_ok st na (snd r).
   Proof.
     intro Hr. induction branches as [|[c body] rest IH]; simpl; intros pi i env els r Henv E.
     - destruct els; [eapply Hr; eassumption|inversion E; subst; exact Henv].
@@ -980,19 +1026,19 @@ Section Nodes.
       destruct (dt_truthy cv); [eapply Hr; eassumption|eapply IH; eassumption].
   Qed.
 
-  Lemma dt_render_node_ok : forall fu pi al env n r, dt_env_ok na env -> dt_render_node gm fu pi al env n = Ok r -> dt_env_ok na (snd r).
+  Lemma dt_render_node_ok : forall fu pi al env n r, dt_env_ok st na env -> dt_render_node gm mu fu pi al env n = Ok r -> dt_env_ok st na (snd r).
   Proof.
     induction fu as [|fu IH]; intros pi al env n r Henv E; [discriminate|].
-    assert (Hrn : dt_rn_ok (fun q e2 m => dt_render_node gm fu q al e2 m)) by (intros p en m r' He Hr; eapply IH; eassumption).
-    assert (Hrns : forall p en ns r', dt_env_ok na en -> dt_render_nodes (fun q e2 m => dt_render_node gm fu q al e2 m) p 0 en ns = Ok r' -> dt_env_ok na (snd r'))
+    assert (Hrn : dt_rn_ok (fun q e2 m => dt_render_node gm mu fu q al e2 m)) by (intros p en m r' He Hr; eapply IH; eassumption).
+    assert (Hrns : forall p en ns r', dt_env_ok st na en -> dt_render_nodes (fun q e2 m => dt_render_node gm mu fu q al e2 m) p 0 en ns = Ok r' -> dt_env_ok st na (snd r'))
       by (intros p en ns r' He Hr; eapply dt_render_nodes_ok; eassumption).
     destruct n; simpl in E; try discriminate.
     - inversion E; subst. exact Henv.
     - apply dt_bind_ok in E. destruct E as [v [E1 E]]. apply dt_bind_ok in E. destruct E as [s [E2 E3]]. inversion E3; subst. exact Henv.
     - eapply dt_if_ok; [|exact Henv|exact E]. intros p en ns r' He Hr. cbv beta in Hr. eapply Hrns; eassumption.
     - apply dt_bind_ok in E. destruct E as [sv [E1 E]]. apply dt_bind_ok in E. destruct E as [items [E2 E3]].
-      assert (Hsv : dt_vok na sv) by (eapply dt_eval_ok; eassumption).
-      assert (Hels : match els with Some ns => dt_render_nodes (fun q e2 m => dt_render_node gm fu q al e2 m) (dsub 3 pi) 0 env ns | None => Ok ([], env) end = Ok r -> dt_env_ok na (snd r)).
+      assert (Hsv : dt_vok st na sv) by (eapply dt_eval_ok; eassumption).
+      assert (Hels : match els with Some ns => dt_render_nodes (fun q e2 m => dt_render_node gm mu fu q al e2 m) (dsub 3 pi) 0 env ns | None => Ok ([], env) end = Ok r -> dt_env_ok st na (snd r)).
       { destruct els; intro Hx; [eapply Hrns; eassumption|inversion Hx; subst; exact Henv]. }
       cbv zeta in E3. destruct items as [[|it its]|]; try (apply Hels; exact E3).
       eapply dt_loop_ok; [| |exact Henv|exact E3].
@@ -1004,12 +1050,13 @@ Section Nodes.
 
   Variables al1 al2 : daddr.
   Hypothesis Hal : na = false -> al1 = al2.
+  Hypothesis Hmu : mu = true -> st = true.
 
   Definition dt_rn_indep (rn1 rn2 : doracle -> denv -> node -> outcome dres) : Prop :=
-    forall p1 p2 env n, dt_env_ok na env -> dt_nok gm n -> rn1 p1 env n = rn2 p2 env n.
+    forall p1 p2 env n, dt_env_ok st na env -> dt_nok gm n -> rn1 p1 env n = rn2 p2 env n.
 
   Lemma dt_render_nodes_indep rn1 rn2 : dt_rn_indep rn1 rn2 -> dt_rn_ok rn2 ->
-    forall ns pi1 pi2 i env, dt_env_ok na env -> Forall (dt_nok gm) ns ->
+    forall ns pi1 pi2 i env, dt_env_ok st na env -> Forall (dt_nok gm) ns ->
     dt_render_nodes rn1 pi1 i env ns = dt_render_nodes rn2 pi2 i env ns.
   Proof.
     intros Hi Hok. induction ns as [|n rest IH]; simpl; intros pi1 pi2 i env Henv H; [reflexivity|].
@@ -1019,15 +1066,15 @@ Section Nodes.
   Qed.
 
   Lemma dt_loop_indep (b1 b2 : doracle -> denv -> outcome dres) :
-    (forall p1 p2 env, dt_env_ok na env -> b1 p1 env = b2 p2 env) ->
-    (forall p env r, dt_env_ok na env -> b2 p env = Ok r -> dt_env_ok na (snd r)) ->
-    forall items pi1 pi2 j k v env, Forall (fun kv => dt_vok na (fst kv) /\ dt_vok na (snd kv)) items -> dt_env_ok na env ->
+    (forall p1 p2 env, dt_env_ok st na env -> b1 p1 env = b2 p2 env) ->
+    (forall p env r, dt_env_ok st na env -> b2 p env = Ok r -> dt_env_ok st na (snd r)) ->
+    forall items pi1 pi2 j k v env, Forall (fun kv => dt_vok st na (fst kv) /\ dt_vok st na (snd kv)) items -> dt_env_ok st na env ->
     dt_loop b1 pi1 j k v env items = dt_loop b2 pi2 j k v env items.
   Proof.
     intros Hb Hok. induction items as [|[key val] rest IH]; simpl; intros pi1 pi2 j k v env Hit Henv; [reflexivity|].
     inversion Hit as [|x xs [Hk Hv] Hrest]; subst. simpl in Hk, Hv.
     set (env2 := match k with Some kx => dt_env_set (dt_env_set env v val) kx key | None => dt_env_set env v val end).
-    assert (He2 : dt_env_ok na env2).
+    assert (He2 : dt_env_ok st na env2).
     { unfold env2. destruct k; [apply dt_env_set_ok; [apply dt_env_set_ok|]|apply dt_env_set_ok]; assumption. }
     rewrite (Hb (dsub j pi1) (dsub j pi2) env2 He2).
     destruct (b2 (dsub j pi2) env2) as [r1| | |] eqn:E1; simpl; try reflexivity.
@@ -1036,8 +1083,8 @@ Section Nodes.
 
   Lemma dt_if_indep (ev1 ev2 : doracle -> expr -> outcome value) (rns1 rns2 : doracle -> denv -> list node -> outcome dres) :
     (forall p1 p2 e, dt_eok gm e -> ev1 p1 e = ev2 p2 e) ->
-    (forall p1 p2 env ns, dt_env_ok na env -> Forall (dt_nok gm) ns -> rns1 p1 env ns = rns2 p2 env ns) ->
-    forall branches pi1 pi2 i env els, dt_env_ok na env ->
+    (forall p1 p2 env ns, dt_env_ok st na env -> Forall (dt_nok gm) ns -> rns1 p1 env ns = rns2 p2 env ns) ->
+    forall branches pi1 pi2 i env els, dt_env_ok st na env ->
     Forall (fun b => dt_eok gm (fst b) /\ Forall (dt_nok gm) (snd b)) branches ->
     (forall ns, els = Some ns -> Forall (dt_nok gm) ns) ->
     dt_if ev1 rns1 pi1 i env branches els = dt_if ev2 rns2 pi2 i env branches els.
@@ -1050,38 +1097,38 @@ Section Nodes.
       destruct (dt_truthy cv); [apply Hrns; assumption|apply IH; assumption].
   Qed.
 
-  Lemma dt_render_node_indep : forall fu pi1 pi2 env n, dt_env_ok na env -> dt_nok gm n ->
-    dt_render_node gm fu pi1 al1 env n = dt_render_node gm fu pi2 al2 env n.
+  Lemma dt_render_node_indep : forall fu pi1 pi2 env n, dt_env_ok st na env -> dt_nok gm n ->
+    dt_render_node gm mu fu pi1 al1 env n = dt_render_node gm mu fu pi2 al2 env n.
   Proof.
     induction fu as [|fu IH]; intros pi1 pi2 env n Henv Hn; [reflexivity|].
-    assert (Hev : forall p1 p2 x, dt_eok gm x -> dt_eval gm fu p1 al1 env x = dt_eval gm fu p2 al2 env x)
-      by (intros; apply (dt_eval_indep gm na al1 al2 Hal); assumption).
-    assert (Hrns : forall p1 p2 en ns, dt_env_ok na en -> Forall (dt_nok gm) ns ->
-              dt_render_nodes (fun q e2 m => dt_render_node gm fu q al1 e2 m) p1 0 en ns =
-              dt_render_nodes (fun q e2 m => dt_render_node gm fu q al2 e2 m) p2 0 en ns).
+    assert (Hev : forall p1 p2 x, dt_eok gm x -> dt_eval gm mu fu p1 al1 env x = dt_eval gm mu fu p2 al2 env x)
+      by (intros; apply (dt_eval_indep gm mu st na al1 al2 Hal Hmu); assumption).
+    assert (Hrns : forall p1 p2 en ns, dt_env_ok st na en -> Forall (dt_nok gm) ns ->
+              dt_render_nodes (fun q e2 m => dt_render_node gm mu fu q al1 e2 m) p1 0 en ns =
+              dt_render_nodes (fun q e2 m => dt_render_node gm mu fu q al2 e2 m) p2 0 en ns).
     { intros p1 p2 en ns He Hns.
       apply dt_render_nodes_indep;
         [intros q1 q2 e2 m He2 Hm; apply IH; assumption
         |intros q e2 m r He2 Hr; eapply dt_render_node_ok; eassumption
         |assumption|assumption]. }
-    assert (Hrok : forall p en ns r, dt_env_ok na en ->
-              dt_render_nodes (fun q e2 m => dt_render_node gm fu q al2 e2 m) p 0 en ns = Ok r -> dt_env_ok na (snd r)).
+    assert (Hrok : forall p en ns r, dt_env_ok st na en ->
+              dt_render_nodes (fun q e2 m => dt_render_node gm mu fu q al2 e2 m) p 0 en ns = Ok r -> dt_env_ok st na (snd r)).
     { intros p en ns r He Hr. eapply dt_render_nodes_ok; [|exact He|exact Hr].
       intros q e2 m r' He2 Hr'. eapply dt_render_node_ok; eassumption. }
     inversion Hn as [s|e He|x e He|branches els Hb Hels|k v seq body els Hseq Hbody Hels|n' Hm]; subst; simpl.
     - reflexivity.
     - rewrite (Hev (dsub 2 pi1) (dsub 2 pi2) e He).
-      destruct (dt_eval gm fu (dsub 2 pi2) al2 env e) as [v| | |] eqn:E; simpl; try reflexivity.
-      rewrite (dt_tostring_indep na al1 al2 Hal v) by (eapply dt_eval_ok; eassumption). reflexivity.
+      destruct (dt_eval gm mu fu (dsub 2 pi2) al2 env e) as [v| | |] eqn:E; simpl; try reflexivity.
+      rewrite (dt_tostring_indep st na al1 al2 Hal v) by (eapply dt_eval_ok; eassumption). reflexivity.
     - rewrite (Hev (dsub 2 pi1) (dsub 2 pi2) e He). reflexivity.
     - apply dt_if_indep; assumption.
     - rewrite (Hev (dsub 2 pi1) (dsub 2 pi2) seq Hseq).
-      destruct (dt_eval gm fu (dsub 2 pi2) al2 env seq) as [sv| | |] eqn:E; simpl; try reflexivity.
-      assert (Hsv : dt_vok na sv) by (eapply dt_eval_ok; eassumption).
-      rewrite (dt_for_items_indep na pi1 pi2 sv Hsv).
+      destruct (dt_eval gm mu fu (dsub 2 pi2) al2 env seq) as [sv| | |] eqn:E; simpl; try reflexivity.
+      assert (Hsv : dt_vok st na sv) by (eapply dt_eval_ok; eassumption).
+      rewrite (dt_for_items_indep st na pi1 pi2 sv Hsv).
       destruct (dt_for_items pi2 sv) as [items| | |] eqn:EI; simpl; try reflexivity.
-      assert (Hels' : match els with Some ns => dt_render_nodes (fun q e2 m => dt_render_node gm fu q al1 e2 m) (dsub 3 pi1) 0 env ns | None => Ok ([], env) end =
-                      match els with Some ns => dt_render_nodes (fun q e2 m => dt_render_node gm fu q al2 e2 m) (dsub 3 pi2) 0 env ns | None => Ok ([], env) end).
+      assert (Hels' : match els with Some ns => dt_render_nodes (fun q e2 m => dt_render_node gm mu fu q al1 e2 m) (dsub 3 pi1) 0 env ns | None => Ok ([], env) end =
+                      match els with Some ns => dt_render_nodes (fun q e2 m => dt_render_node gm mu fu q al2 e2 m) (dsub 3 pi2) 0 env ns | None => Ok ([], env) end).
       { destruct els; [apply Hrns; [exact Henv|apply Hels; reflexivity]|reflexivity]. }
       cbv zeta. destruct items as [[|it its]|]; try exact Hels'.
       apply dt_loop_indep.
@@ -1092,8 +1139,8 @@ Section Nodes.
     - destruct n; simpl in Hm; try discriminate; reflexivity.
   Qed.
 
-  Theorem dt_render_indep fu pi1 pi2 env ns : dt_env_ok na env -> Forall (dt_nok gm) ns ->
-    dt_render gm fu pi1 al1 env ns = dt_render gm fu pi2 al2 env ns.
+  Theorem dt_render_indep fu pi1 pi2 env ns : dt_env_ok st na env -> Forall (dt_nok gm) ns ->
+    dt_render gm mu fu pi1 al1 env ns = dt_render gm mu fu pi2 al2 env ns.
   Proof.
     intros Henv Hns. unfold dt_render.
     apply dt_render_nodes_indep;
@@ -1136,7 +1183,7 @@ Proof.
   simpl. rewrite dt_load_entries_code. exact H.
 Qed.
 
-Lemma dt_load_ok na : forall n v, dt_vdepth v <= n -> dt_vok na v -> dt_vok na (dt_load v).
+Lemma dt_load_ok st na : forall n v, dt_vdepth v <= n -> dt_vok st na v -> dt_vok st na (dt_load v).
 Proof.
   induction n as [|n IH]; intros v Hd Hv.
   - destruct v; simpl in Hd; try lia; try exact Hv. destruct v; [lia|exact Hv].
@@ -1145,12 +1192,16 @@ Proof.
       apply in_map_iff in Hy. destruct Hy as [x [E Hx]]. subst y. rewrite Forall_forall in Hv.
       apply IH; [|apply Hv; exact Hx]. simpl in Hd. pose proof (dt_fold_max_in dt_vdepth xs x Hx). lia.
     + (* map *)
-      pose proof (dt_vok_map_code _ _ _ Hv) as Hc. rewrite dt_load_map_eq by exact Hc.
+      pose proof (dt_vok_map_code _ _ _ _ Hv) as Hc. rewrite dt_load_map_eq by exact Hc.
+      pose proof (dt_vok_map_strict _ _ _ _ Hv) as Hs.
       apply dt_vok_map_inv in Hv. destruct Hv as [H1 [H2 H3]].
       constructor.
-      * change (fun kv : value * value => dt_keystr (fst kv)) with dkstr.
+      * change (fun kv : value * value => dt_key_code (fst kv)) with dcode.
         eapply Permutation_NoDup; [apply Permutation_map, Permutation_sym, dt_canon_perm|].
-        rewrite dt_load_entries_kstr. exact H1.
+        rewrite dt_load_entries_code. exact H1.
+      * intro Hst. change (fun kv : value * value => dt_keystr (fst kv)) with dkstr.
+        eapply Permutation_NoDup; [apply Permutation_map, Permutation_sym, dt_canon_perm|].
+        rewrite dt_load_entries_kstr. apply Hs. exact Hst.
       * apply dt_canon_Forall. apply Forall_forall. intros y Hy. apply in_map_iff in Hy. destruct Hy as [x [E Hx]]. subst y.
         rewrite Forall_forall in H2. simpl. apply H2. exact Hx.
       * apply dt_canon_Forall. apply Forall_forall. intros y Hy. apply in_map_iff in Hy. destruct Hy as [x [E Hx]]. subst y.
@@ -1162,11 +1213,11 @@ Proof.
       simpl in Hd. pose proof (dt_fold_max_in (fun f => dt_vdepth (snd f)) fields x Hx). simpl in H. lia.
     + (* pointer *) destruct v as [x|]; [|exact Hv]. simpl.
       assert (Hna : na = false) by (inversion Hv; assumption).
-      assert (Hx : dt_vok na x) by (inversion Hv; assumption).
+      assert (Hx : dt_vok st na x) by (inversion Hv; assumption).
       constructor; [exact Hna|]. apply IH; [simpl in Hd; lia|exact Hx].
 Qed.
 
-Lemma dt_load_env_ok na (ctx : denv) : dt_env_ok na ctx -> dt_env_ok na (dt_load_env ctx).
+Lemma dt_load_env_ok st na (ctx : denv) : dt_env_ok st na ctx -> dt_env_ok st na (dt_load_env ctx).
 Proof.
   unfold dt_env_ok, dt_load_env. intro H.
   eapply Forall_perm; [apply Permutation_sym, sp_isort_perm|].
@@ -1174,7 +1225,7 @@ Proof.
   rewrite Forall_forall in H. eapply dt_load_ok; [apply le_n|apply H; exact Hx].
 Qed.
 
-Lemma dt_load_veq na : forall n v v', dt_vdepth v <= n -> dt_vok na v -> dt_veq v v' -> dt_load v = dt_load v'.
+Lemma dt_load_veq st na : forall n v v', dt_vdepth v <= n -> dt_vok st na v -> dt_veq v v' -> dt_load v = dt_load v'.
 Proof.
   induction n as [|n IH]; intros v v' Hd Hv He.
   - inversion He; subst; try reflexivity; simpl in Hd; lia.
@@ -1188,7 +1239,7 @@ Proof.
         - apply IHl. intros x Hx. apply Hsub. right. exact Hx. }
       apply G; [exact HF|auto].
     + (* map *)
-      pose proof (dt_vok_map_code _ _ _ Hv) as Hc.
+      pose proof (dt_vok_map_code _ _ _ _ Hv) as Hc.
       apply dt_vok_map_inv in Hv. destruct Hv as [H1 [H2 H3]]. simpl in Hd.
       assert (G : forall l l', Forall2 (fun a b => fst a = fst b /\ dt_veq (snd a) (snd b)) l l' -> (forall x, In x l -> In x m) ->
                   map dt_load_entry l = map dt_load_entry l').
@@ -1206,7 +1257,7 @@ Proof.
       * apply dt_map_fill_nodup. constructor.
     + (* struct *)
       simpl. f_equal. simpl in Hd.
-      assert (Hf : Forall (fun f => dt_vok na (snd f)) fs) by (inversion Hv; assumption).
+      assert (Hf : Forall (fun f => dt_vok st na (snd f)) fs) by (inversion Hv; assumption).
       assert (G : forall l l', Forall2 (fun a b => fst a = fst b /\ dt_veq (snd a) (snd b)) l l' -> (forall x, In x l -> In x fs) ->
                   map dt_load_field l = map dt_load_field l').
       { induction 1 as [|a b l l' [Hk Hab] Hl IHl]; intro Hsub; [reflexivity|]. simpl. f_equal.
@@ -1218,13 +1269,13 @@ Proof.
     + (* pointer *) simpl. f_equal. f_equal. apply IH; [simpl in Hd; lia|inversion Hv; assumption|exact Hx].
 Qed.
 
-Lemma dt_load_env_veq na (ctx ctx' : denv) : dt_env_ok na ctx -> NoDup (map fst ctx) -> dt_env_veq ctx ctx' ->
+Lemma dt_load_env_veq st na (ctx ctx' : denv) : dt_env_ok st na ctx -> NoDup (map fst ctx) -> dt_env_veq ctx ctx' ->
   dt_load_env ctx = dt_load_env ctx'.
 Proof.
   intros Hok Hnd [ctx'' [Hp HF]]. unfold dt_load_env.
   change (fun f : bytes * value => (fst f, dt_load (snd f))) with dt_load_field.
   assert (E : map dt_load_field ctx'' = map dt_load_field ctx').
-  { assert (Hok'' : dt_env_ok na ctx'') by (eapply Forall_perm; [exact Hp|exact Hok]).
+  { assert (Hok'' : dt_env_ok st na ctx'') by (eapply Forall_perm; [exact Hp|exact Hok]).
     clear Hp Hnd Hok. induction HF as [|a b l l' [Hk Hab] Hl IHl]; [reflexivity|].
     inversion Hok''; subst. simpl. f_equal; [|apply IHl; assumption].
     unfold dt_load_field. rewrite Hk. f_equal. eapply dt_load_veq; [apply le_n|eassumption|exact Hab]. }
@@ -1234,40 +1285,37 @@ Proof.
 Qed.
 
 (* ================================================================== the theorems of C03 about rendering *)
+Lemma dt_render_ctx_indep gm mu st na al1 al2 : (na = false -> al1 = al2) -> (mu = true -> st = true) ->
+  forall fu pi1 pi2 ctx ns, dt_env_ok st na ctx -> Forall (dt_nok gm) ns ->
+  dt_render_ctx gm mu fu pi1 al1 ctx ns = dt_render_ctx gm mu fu pi2 al2 ctx ns.
+Proof.
+  intros Hal Hmu fu pi1 pi2 ctx ns Hc Hn. unfold dt_render_ctx.
+  rewrite (dt_render_indep gm mu st na al1 al2 Hal Hmu fu pi1 pi2); [reflexivity| |exact Hn].
+  apply dt_load_env_ok. exact Hc.
+Qed.
+
 Lemma C03_oracle_independent_proof : forall fu pi1 pi2 al ctx ns,
-  dt_env_ok false ctx -> Forall (dt_nok dt_hash_ranges_go_map) ns ->
+  dt_env_ok dt_merge_filter_unsorted false ctx -> Forall (dt_nok dt_hash_ranges_go_map) ns ->
   dt_render_now fu pi1 al ctx ns = dt_render_now fu pi2 al ctx ns.
 Proof.
-  intros fu pi1 pi2 al ctx ns Hc Hn. unfold dt_render_now, dt_render_ctx.
-  rewrite (dt_render_indep dt_hash_ranges_go_map false al al (fun _ => eq_refl) fu pi1 pi2); [reflexivity| |exact Hn].
-  apply dt_load_env_ok. exact Hc.
+  intros. unfold dt_render_now.
+  apply (dt_render_ctx_indep _ _ dt_merge_filter_unsorted false al al (fun _ => eq_refl) (fun H => H)); assumption.
 Qed.
 
 Lemma C03_address_independent_proof : forall fu pi1 pi2 al1 al2 ctx ns,
-  dt_env_ok true ctx -> Forall (dt_nok dt_hash_ranges_go_map) ns ->
+  dt_env_ok dt_merge_filter_unsorted true ctx -> Forall (dt_nok dt_hash_ranges_go_map) ns ->
   dt_render_now fu pi1 al1 ctx ns = dt_render_now fu pi2 al2 ctx ns.
 Proof.
-  intros fu pi1 pi2 al1 al2 ctx ns Hc Hn. unfold dt_render_now, dt_render_ctx.
-  rewrite (dt_render_indep dt_hash_ranges_go_map true al1 al2 (fun H => False_ind _ (Bool.diff_true_false H)) fu pi1 pi2); [reflexivity| |exact Hn].
-  apply dt_load_env_ok. exact Hc.
+  intros. unfold dt_render_now.
+  apply (dt_render_ctx_indep _ _ dt_merge_filter_unsorted true al1 al2 (fun Hf => False_ind _ (Bool.diff_true_false Hf)) (fun H => H)); assumption.
 Qed.
 
 Lemma C03_insertion_order_independent_proof : forall fu pi al ctx ctx' ns,
-  dt_env_ok false ctx -> NoDup (map fst ctx) -> dt_env_veq ctx ctx' ->
+  dt_env_ok dt_merge_filter_unsorted false ctx -> NoDup (map fst ctx) -> dt_env_veq ctx ctx' ->
   dt_render_now fu pi al ctx ns = dt_render_now fu pi al ctx' ns.
 Proof.
   intros fu pi al ctx ctx' ns Hc Hnd Hv. unfold dt_render_now, dt_render_ctx.
-  rewrite (dt_load_env_veq false ctx ctx' Hc Hnd Hv). reflexivity.
-Qed.
-
-(* with hash literals evaluated in source order no condition on the template is left *)
-Lemma C03_oracle_independent_ordered_hash_proof : forall fu pi1 pi2 al ctx ns,
-  dt_env_ok false ctx -> Forall (dt_nok false) ns ->
-  dt_render_ctx false fu pi1 al ctx ns = dt_render_ctx false fu pi2 al ctx ns.
-Proof.
-  intros fu pi1 pi2 al ctx ns Hc Hn. unfold dt_render_ctx.
-  rewrite (dt_render_indep false false al al (fun _ => eq_refl) fu pi1 pi2); [reflexivity| |exact Hn].
-  apply dt_load_env_ok. exact Hc.
+  rewrite (dt_load_env_veq _ false ctx ctx' Hc Hnd Hv). reflexivity.
 Qed.
 
 (* every oracle code is a real iteration order and every iteration order has a code *)
@@ -1276,6 +1324,12 @@ Lemma C03_oracle_covers_all_orders_proof : forall (m : dentries),
 Proof.
   intro m. split; [intro p; apply apply_perm_Permutation|intros m' H; apply apply_perm_complete; exact H].
 Qed.
+
+(* sortedMapKeys with its tie-break: one order for every map whose keys are ints and strings *)
+Lemma C03_sorted_keys_canonical_proof : forall p1 p2 (m : dentries),
+  Forall (fun kv => dt_is_key (fst kv) = true) m -> NoDup (map (fun kv => dt_key_code (fst kv)) m) ->
+  dt_sorted_entries p1 m = dt_sorted_entries p2 m.
+Proof. intros. apply dt_sorted_entries_indep; assumption. Qed.
 
 (* with gm = false the side condition on templates is empty: it holds of every expression and node *)
 Fixpoint dt_eok_false_all (e : expr) : dt_eok false e.
@@ -1313,61 +1367,68 @@ Proof.
   - apply nok_set. apply dt_eok_false_all.
 Defined.
 
-Lemma C03_oracle_independent_ordered_hash_all_proof : forall fu pi1 pi2 al ctx ns,
-  dt_env_ok false ctx ->
-  dt_render_ctx false fu pi1 al ctx ns = dt_render_ctx false fu pi2 al ctx ns.
+Lemma C03_oracle_independent_all_sorted_proof : forall fu pi1 pi2 al ctx ns,
+  dt_env_ok false false ctx ->
+  dt_render_ctx false false fu pi1 al ctx ns = dt_render_ctx false false fu pi2 al ctx ns.
 Proof.
-  intros fu pi1 pi2 al ctx ns Hc. apply C03_oracle_independent_ordered_hash_proof; [exact Hc|].
+  intros fu pi1 pi2 al ctx ns Hc.
+  apply (dt_render_ctx_indep false false false false al al (fun _ => eq_refl) (fun H => H)); [exact Hc|].
   apply Forall_forall. intros n _. apply dt_nok_false_all.
 Qed.
 
-(* ================================================================== refutations in the faithful model *)
+(* ================================================================== what is order- or address-dependent: witnesses *)
 Definition dt_al0 : daddr := fun _ => b#"c000012345".
 Definition dt_al1 : daddr := fun _ => b#"c000067890".
 
-(* {{ {'a': 1, 'a': 2}|first }} : the surviving entry is the one the range over n.items visits last *)
+(* were the pairs of a hash literal ranged in the order of a Go map again (gm = true):
+   {{ {'a': 1, 'a': 2}|first }} would keep the pair visited last *)
 Definition dt_w_hash_dup : list node :=
   [NPrint (EFilter (EHash [(ELit (LStr b#"a"), ELit (LInt 1)); (ELit (LStr b#"a"), ELit (LInt 2))]) b#"first" [])].
 
-Lemma C03_hash_duplicate_key_refuted_proof :
-  dt_render_ctx true 10 (dt_const_oracle [0; 0]) dt_al0 [] dt_w_hash_dup = Ok b#"2" /\
-  dt_render_ctx true 10 (dt_const_oracle [1; 0]) dt_al0 [] dt_w_hash_dup = Ok b#"1".
-Proof. split; vm_compute; reflexivity. Qed.
+Lemma C03_hash_map_order_refuted_proof : forall mu,
+  dt_render_ctx true mu 10 (dt_const_oracle [0; 0]) dt_al0 [] dt_w_hash_dup = Ok b#"2" /\
+  dt_render_ctx true mu 10 (dt_const_oracle [1; 0]) dt_al0 [] dt_w_hash_dup = Ok b#"1" /\
+  dt_render_ctx false mu 10 (dt_const_oracle [1; 0]) dt_al0 [] dt_w_hash_dup = Ok b#"2".
+Proof. intros [|]; repeat split; vm_compute; reflexivity. Qed.
 
-(* a map[interface{}]interface{} holding the int 1 and the string 1: sortedMapKeys compares equal strings,
-   the stable sort keeps the map order *)
+(* a map[interface{}]interface{} holding the int 1 and the string 1 *)
 Definition dt_w_collide_ctx : denv :=
   [(b#"m", VMap MAny [(VInt 1, VStr b#"int"); (VStr b#"1", VStr b#"str"); (VInt 2, VStr b#"two")])].
 Definition dt_w_collide_for : list node :=
   [NFor (Some b#"k") b#"v" (EVar b#"m") [NPrint (EVar b#"k"); NText b#"="; NPrint (EVar b#"v"); NText b#";"] None].
-
-Lemma C03_key_collision_refuted_proof : forall gm,
-  dt_render_ctx gm 10 (dt_const_oracle [0; 0; 0]) dt_al0 dt_w_collide_ctx dt_w_collide_for = Ok b#"1=int;1=str;2=two;" /\
-  dt_render_ctx gm 10 (dt_const_oracle [2; 0; 0]) dt_al0 dt_w_collide_ctx dt_w_collide_for = Ok b#"1=str;1=int;2=two;".
-Proof. intros [|]; split; vm_compute; reflexivity. Qed.
-
-(* {{ merge(m, [])|first }} on the same map: functionMerge writes both entries to the key 1 *)
+(* {{ m|merge|first }} : filterMerge stores every entry under the string form of its key, in the order of MapKeys() *)
 Definition dt_w_collide_merge : list node :=
-  [NPrint (EFilter (ECall b#"merge" [EVar b#"m"; EArr []]) b#"first" [])].
+  [NPrint (EFilter (EFilter (EVar b#"m") b#"merge" []) b#"first" [])].
 
-Lemma C03_merge_function_collision_refuted_proof : forall gm,
-  dt_render_ctx gm 10 (dt_const_oracle [0; 0; 0]) dt_al0 dt_w_collide_ctx dt_w_collide_merge = Ok b#"str" /\
-  dt_render_ctx gm 10 (dt_const_oracle [2; 0; 0]) dt_al0 dt_w_collide_ctx dt_w_collide_merge = Ok b#"int".
-Proof. intros [|]; split; vm_compute; reflexivity. Qed.
+Lemma C03_merge_filter_collision_refuted_proof : forall gm,
+  dt_render_ctx gm true 10 (dt_const_oracle [0; 0; 0]) dt_al0 dt_w_collide_ctx dt_w_collide_merge = Ok b#"str" /\
+  dt_render_ctx gm true 10 (dt_const_oracle [2; 0; 0]) dt_al0 dt_w_collide_ctx dt_w_collide_merge = Ok b#"int" /\
+  dt_render_ctx gm false 10 (dt_const_oracle [0; 0; 0]) dt_al0 dt_w_collide_ctx dt_w_collide_merge = Ok b#"str" /\
+  dt_render_ctx gm false 10 (dt_const_oracle [2; 0; 0]) dt_al0 dt_w_collide_ctx dt_w_collide_merge = Ok b#"str".
+Proof. intros [|]; repeat split; vm_compute; reflexivity. Qed.
 
-(* {{ p }} for a pointer to an int and for a func value: the address is printed *)
-Lemma C03_address_refuted_proof : forall gm,
-  dt_render_ctx gm 10 (dt_const_oracle []) dt_al0 [(b#"p", VPtr (Some (VInt 5)))] [NPrint (EVar b#"p")] = Ok b#"0xc000012345" /\
-  dt_render_ctx gm 10 (dt_const_oracle []) dt_al1 [(b#"p", VPtr (Some (VInt 5)))] [NPrint (EVar b#"p")] = Ok b#"0xc000067890" /\
-  dt_render_ctx gm 10 (dt_const_oracle []) dt_al0 [(b#"p", VOpaque 1)] [NPrint (EVar b#"p")] <>
-  dt_render_ctx gm 10 (dt_const_oracle []) dt_al1 [(b#"p", VOpaque 1)] [NPrint (EVar b#"p")].
-Proof. intros [|]; repeat split; try (vm_compute; reflexivity); vm_compute; discriminate. Qed.
+(* {{ s }} for a struct with a pointer field: fmt prints the address *)
+Definition dt_w_nested_ptr : denv :=
+  [(b#"s", VStruct 1 [(b#"N", VStr b#"name"); (b#"P", VPtr (Some (VInt 7)))])].
 
-(* the witnesses are outside the side conditions, as they must be *)
-Lemma dt_w_collide_not_ok : ~ dt_env_ok false dt_w_collide_ctx.
+Lemma C03_nested_pointer_refuted_proof : forall gm mu,
+  dt_render_ctx gm mu 10 (dt_const_oracle []) dt_al0 dt_w_nested_ptr [NPrint (EVar b#"s")] = Ok b#"{name 0xc000012345}" /\
+  dt_render_ctx gm mu 10 (dt_const_oracle []) dt_al1 dt_w_nested_ptr [NPrint (EVar b#"s")] = Ok b#"{name 0xc000067890}" /\
+  dt_render_ctx gm mu 10 (dt_const_oracle []) dt_al0 [(b#"p", VPtr (Some (VInt 5))); (b#"f", VOpaque 1)] [NPrint (EVar b#"p"); NPrint (EVar b#"f")] = Ok b#"5".
+Proof. intros [|] [|]; repeat split; vm_compute; reflexivity. Qed.
+
+(* the collision map is inside the side condition without st, outside with it *)
+Lemma dt_w_collide_ok : dt_env_ok false false dt_w_collide_ctx /\ ~ dt_env_ok true false dt_w_collide_ctx.
 Proof.
-  intro H. inversion H as [|x xs Hm _]; subst. simpl in Hm. apply dt_vok_map_inv in Hm. destruct Hm as [Hnd _].
-  vm_compute in Hnd. inversion Hnd as [|a l Hnin _]; subst. apply Hnin. left. reflexivity.
+  split.
+  - constructor; [|constructor]. simpl. constructor.
+    + vm_compute. repeat constructor; simpl; intuition discriminate.
+    + intro H. discriminate.
+    + repeat constructor.
+    + repeat constructor.
+  - intro H. inversion H as [|x xs Hm _]; subst. simpl in Hm.
+    pose proof (dt_vok_map_strict _ _ _ _ Hm eq_refl) as Hnd.
+    vm_compute in Hnd. inversion Hnd as [|a l Hnin _]; subst. apply Hnin. left. reflexivity.
 Qed.
 
 (* ================================================================== date format conversion *)
